@@ -64,7 +64,7 @@ def strobes(c):
     regs = {str(v): v for v in ts.state.values()}
     for rn, st_name in (("status_sent", "SET_ADDRESS"), ("status_sent$2", "SET_CONFIGURATION"),
                         ("clear_feature_status_sent", "CLEAR_FEATURE")):
-        if "StandardRequestHandler." + rn in regs:
+        if ts.has_reg("StandardRequestHandler." + rn):
             sent = regs["StandardRequestHandler." + rn] == 1
             c.inv(f"{rn}_is_await_ack".replace("$", "_"),
                   z3.And(z3.Implies(sent, z3.And(std, current, h.is_(st_name), z3.Or(stage == ST_STATUS_IN, stage == ST_STATUS_OUT))),
